@@ -3,11 +3,12 @@
      0  truncation            (0 n S lam V)
      1  make definite positive (1 n eps cons S lam V)
      2  Goulard without constraint (2 nvar ncova npadir maxiter tolred wt gg ge sill0 eigs)
-     3  options -> parameters -> bounds (3 ndim nvar ndir zflat opts chars items roots sillneg defaults)
+     3  options -> parameters -> bounds (3 ndim nvar ndir zflat opts chars items roots sillneg defaults vmap)
      4  foxleg bound enforcement (4 delta (list (scale p l u h eps)))
      5  check_param            (5 (list (p l u)))
      6  ranges written         (6 ndim icov (list parid) (list val) ranges0)
-     7  one Goulard step       (7 n cc lam V) *)
+     7  one Goulard step       (7 n cc lam V)
+     8  angles imposed by equality constraints (8 icov items parids angles) *)
 From Coq Require Import List Arith ZArith QArith Qabs Bool.
 From Gst Require Import lib.Sx lib.QAux lib.LinAlgQ C17.Model C17.ModelPar.
 Import ListNotations.
@@ -120,28 +121,24 @@ Definition run (c : sx) : sx :=
                        g_tolred := tolred |} in
           let eig := fun (k : nat) (_ : mat) => nth_error eigs k in
           let sill0' := map (fun M => mkr nvar nvar (lowsym (get M))) sill0 in
-          if degenerate gc then L [I 3%Z]
-          else match goulard gc eig maxiter sill0' with
+          match goulard gc eig maxiter sill0' with
                | None => L [I 0%Z]
                | Some (st, crits) =>
                    L [I 1%Z; ofList (ofMat nvar nvar) (g_sill st); ofList ofQ crits; ofNat (g_calls st)]
                end
       | _, _, _, _, _, _, _, _, _, _ => sx_error 1
       end
-  | L [I 3%Z; nd; nv; ndr; zf; op; chs; its; rts; sn; df] =>
+  | L [I 3%Z; nd; nv; ndr; zf; op; chs; its; rts; sn; df; vm] =>
       match asNat nd, asNat nv, asZ ndr, asListOf asB zf, asOpt op, asListOf asChar chs, asListOf asItem its,
-            asQL rts, asB sn, asDefaults df with
-      | Some ndim, Some nvar, Some ndir, Some zflat, Some o, Some chars, Some items, Some roots, Some sillneg, Some d =>
+            asQL rts, asB sn, asDefaults df, asB vm with
+      | Some ndim, Some nvar, Some ndir, Some zflat, Some o, Some chars, Some items, Some roots, Some sillneg, Some d, Some vmap =>
           let sill_cons := existsb (fun it => Z.eqb (ci_elem it) E_SILL) items in
-          match alter_optvar (Z.of_nat ndim) ndir zflat (Z.of_nat nvar) sill_cons sillneg o with
+          match (if vmap then alter_vmap_optvar (Z.of_nat ndim) (Z.of_nat nvar) sill_cons sillneg o
+                 else alter_optvar (Z.of_nat ndim) ndir zflat (Z.of_nat nvar) sill_cons sillneg o) with
           | None => L [I 0%Z]
           | Some o' =>
-              (* the items are rewritten only when Goulard was on and gets switched off (st_alter_model_optvar) *)
-              let items' := if sill_cons && o_goulard (alter_geom (Z.of_nat ndim) ndir
-                                 (if Z.eqb (Z.of_nat ndim) 2 then ndir else if Z.eqb (Z.of_nat ndim) 3
-                                  then Z.of_nat (length (filter (fun b => b) zflat)) else 0%Z)
-                                 (if Z.eqb (Z.of_nat ndim) 3 then Z.of_nat (length (filter negb zflat)) else 0%Z) o)
-                            then modify_constraints_on_sill items roots else Some items in
+              (* the items are rewritten as soon as one of them is about a sill *)
+              let items' := if sill_cons then modify_constraints_on_sill items roots else Some items in
               match items' with
               | None => L [I 2%Z]
               | Some its' =>
@@ -154,7 +151,7 @@ Definition run (c : sx) : sx :=
                                                                 && Z.eqb d' (p_ivar p) && Z.eqb e (p_jvar p) end) ps)]
               end
           end
-      | _, _, _, _, _, _, _, _, _, _ => sx_error 1
+      | _, _, _, _, _, _, _, _, _, _, _ => sx_error 1
       end
   | L [I 4%Z; dl; steps] =>
       match asQ dl, asListOf asStep steps with
@@ -179,6 +176,11 @@ Definition run (c : sx) : sx :=
       match asNat n, asMatQ s, asQL l, asMatQ v with
       | Some n', Some cc, Some lam, Some V =>
           L [ofB (allpos n' (vget lam)); ofFmat n' n' (goulard_newsill n' (get cc) (vget lam) (get V))]
+      | _, _, _, _ => sx_error 1
+      end
+  | L [I 8%Z; ic; its; ps; an] =>
+      match asZ ic, asListOf asItem its, asListOf asParid ps, asQL an with
+      | Some icov, Some items, Some ps', Some angles => L (map ofQ (imposed_angles items ps' icov angles))
       | _, _, _, _ => sx_error 1
       end
   | _ => sx_error 0
